@@ -15,7 +15,7 @@ thread_local! {
 
 /// a single request above this is refused (returns null => alloc error => abort); the harness
 /// checks `biggest()` against a much lower threshold before that can legitimately happen
-pub const HARD_CAP: usize = 8 << 30;
+pub const HARD_CAP: usize = 1 << 30;
 
 unsafe impl GlobalAlloc for Counting {
     unsafe fn alloc(&self, l: Layout) -> *mut u8 {
@@ -87,17 +87,25 @@ pub fn set_context(s: Option<String>) {
     });
 }
 fn on_cap(n: usize) {
-    // cannot allocate here; write what we have with a raw write
-    let ctx = CAP_CONTEXT.try_with(|c| c.borrow().clone()).ok().flatten().unwrap_or_default();
-    let msg = format!("ALLOC-CAP request={} bytes context={}\n", n, ctx);
-    unsafe {
-        libc_write(2, msg.as_ptr(), msg.len());
-    }
-    std::process::exit(3);
-}
-extern "C" {
-    #[link_name = "write"]
-    fn libc_write(fd: i32, buf: *const u8, n: usize) -> isize;
+    // A request this large would abort the process on failure (or take the machine down on
+    // success): record the case being run as a replayable violation and stop. The context is the
+    // JSON replay case set by the check before it ran the case.
+    let ctx = CAP_CONTEXT.try_with(|c| c.borrow().clone()).ok().flatten().unwrap_or_else(|| "null".into());
+    let (prop, case) = match ctx.split_once('|') {
+        Some((p, c)) => (p.to_string(), c.to_string()),
+        None => ("C04".to_string(), ctx),
+    };
+    let path = format!("/verif/replays/{}-alloc-cap-{}.json", prop, std::process::id());
+    let body = format!(
+        "{{\"property\": \"{}\", \"signature\": \"{}/single-allocation-above-1GiB\", \"what\": \"a single allocation request of {} bytes\", \"replay\": {}}}\n",
+        prop, prop, n, case
+    );
+    let _ = std::fs::create_dir_all("/verif/replays");
+    let _ = std::fs::write(&path, body);
+    crate::report::outln(&format!("VIOLATION property={} replay={}", prop, path));
+    crate::report::outln(&format!("  signature: {}/single-allocation-above-1GiB", prop));
+    crate::report::outln(&format!("  what: a single allocation request of {} bytes (process stopped: allocation failure aborts)", n));
+    std::process::exit(1);
 }
 
 /// start tracking on this thread: live := 0, peak := 0
